@@ -26,6 +26,16 @@ def scenarios(ctx, thorough):
     scs.append(S.mk(sid, "ack-mix", "order", [{"a": "Probe", "tag": 90}, {"a": "Push", "what": "update_short"}, {"a": "Push", "what": "pong"},
                {"a": "Push", "what": "new_session"}, {"a": "Push", "what": "msgs_ack"}, S.call("c1", 11), S.call("c2", 12),
                {"a": "Answer", "tags": [11, 12], "container": True}, {"a": "Push", "what": "api_object"}, {"a": "Drain"}, {"a": "Settle"}]))
+    # results nobody waits for are content-related messages too: alone and inside containers
+    sid += 1
+    scs.append(S.mk(sid, "ack-unsolicited", "order", [{"a": "Probe", "tag": 90}, {"a": "Push", "what": "unsolicited_result"}, {"a": "Probe", "tag": 91},
+               {"a": "Push", "what": "repeated_result"}, {"a": "Probe", "tag": 92}, {"a": "Settle"}]))
+    for junk in ("unsolicited", "repeated"):
+        for at in ("first", "last"):
+            sid += 1
+            scs.append(S.mk(sid, "ack-container-%s-%s" % (junk, at), "order",
+                            [{"a": "Probe", "tag": 90}, S.call("c1", 11), S.call("c2", 12),
+                             {"a": "Answer", "tags": [11, 12], "container": True, "junk": junk, "junkat": at, "n": 400}, {"a": "Drain"}, {"a": "Settle"}]))
     for k in range(16 if thorough else 4):
         sid += 1
         scs.append(S.mk(sid, "random", "order", mode="random", callers=8, calls=4, rotate=0, kinds=["object", "bool"],
@@ -37,12 +47,15 @@ def run(ctx):
     thorough = ctx.tier == "thorough"
     mc = model_check(ctx, thorough)
     C.run_tlc(ctx, "Client", "ClientDevGenIdOutsideLock.cfg", workers=4, expect_violation=True, timeout=300, tag="sensitivity:GenIdOutsideLock")
+    C.run_tlc(ctx, "Client", "ClientJunk.cfg", workers=C.NCPU, timeout=1800, tag="ClientJunk.cfg")
+    C.run_tlc(ctx, "Client", "ClientDevNoAckUnknownResult.cfg", workers=4, expect_violation=True, timeout=300, tag="sensitivity:NoAckForUnknownResult")
     scs = scenarios(ctx, thorough)
     st = S.judge(ctx, scs, S.K_WIRE | {"process-died"}, "order")
     C.write_evidence(ctx, "model_checking", {
         "states": mc.distinct, "transitions": mc.generated, "traces_validated_against_impl": st["scenarios"],
         "evaluations": st["events"], "distinct_nontrivial": st["scenarios"],
-        "rule": "Client.tla: WireIdsIncrease and SeqNoRules over every interleaving of callers and the loop's own acknowledgements with a clock "
+        "rule": "Client.tla: WireIdsIncrease, SeqNoRules and AckedAll (every content-related message the loop finished with is acknowledged, "
+                "also results nobody waits for: ClientJunk.cfg; NoAckForUnknownResult must break it) over every interleaving of callers and the loop's own acknowledgements with a clock "
                 "that may stand still; GenIdOutsideLock alone must violate it; schedules from tlc -simulate (callers held right after "
                 "taking their id, released in every order) replayed with real goroutines, named hold-and-overtake schedules, server "
                 "histories mixing content-related and service messages, seeded 8-goroutine runs; the server's arrival-order log of "
